@@ -34,6 +34,18 @@ def check(tier, seed, only=None):
         ("resubmit", "proto", "reference_loose", "per_param"),
         ("flush", "proto", "reference_loose", "per_param"),
     ], only)
+    # rolling hash (added after seed C08_c): bounds / pointer / frame obligations of init, reset (window object of exactly w bytes),
+    # the C scan loop and, thorough, _rolling_hash2_run (buffer of exactly max_len bytes) - the same jobs as C09
+    from . import overlay, rolling
+    try:
+        rj = [j for j in rolling.jobs(os.path.join(runner.scratch(), "rolling")) if "lemma" not in j.name and "table" not in j.name]
+        if tier == "quick":
+            rj = [j for j in rj if j.name != "rolling/run"]
+        if only:
+            rj = [j for j in rj if any(s in j.name for s in only.split(","))]
+        rep.add_job_results(runner.run_jobs(rj))
+    except overlay.OverlayError as e:
+        rep.add_undecided("extraction broke (rolling): %s" % e)
     # wrappers: no dereference of any argument before the guards (invalid pointers in the harness)
     p_wrap_common.run_wrappers(rep, fips=False, legacy=False, only=only)
     rep.default_replays()
